@@ -56,7 +56,7 @@ func runC04Enum(src sim.Source, o Opts, res *Result) {
 	committed := model.NewSet()
 	nextTag := 0
 	// some initial content
-	for i, n := 0, src.Intn("prefill", 6); i < n; i++ {
+	for i, n := 0, src.Intn("prefill", 2*len(pool)+1); i < n; i++ {
 		nextTag++
 		op := genWOp(src, pool, methods3, nextTag, false, 0)
 		op.Kind = "handle"
@@ -67,7 +67,7 @@ func runC04Enum(src sim.Source, o Opts, res *Result) {
 			}
 		}
 	}
-	prog := genTxnProg(src, pool, methods3, &nextTag, 6, 8)
+	prog := genTxnProgHint(src, pool, methods3, &nextTag, 6, 8, committed, cfg)
 	managed := prog.Managed
 	// enumerate every ending at every position; commit last (it changes the committed state)
 	var variants []txnVariant
@@ -82,6 +82,7 @@ func runC04Enum(src sim.Source, o Opts, res *Result) {
 	}
 	variants = append(variants, txnVariant{"commit", n})
 	stay := sim.Pick(src, "stay", [][2]int{{1, 2}, {0, 1}, {3, 4}})
+	iterAt := src.Intn("iterat", len(prog.Ops)+2) - 2 // -2: never
 	effWrites, outside := 0, 0
 	res.Case["config"] = cfg.String()
 	res.Case["pool"] = poolStrings(pool)
@@ -143,8 +144,9 @@ func runC04Enum(src sim.Source, o Opts, res *Result) {
 					}
 				}
 				var d string
+				withIter := iterAt == i // Txn.Iter() resets the copy-on-write cache: only at one drawn position per program
 				s.Atomic(func() {
-					d = world.DiffLines(world.MapSweep(txn, methods3, pool, prefixes), world.ModelMapSweep(private, methods3, pool, prefixes))
+					d = world.DiffLines(world.MapSweepOpt(txn, methods3, pool, prefixes, withIter), world.ModelMapSweepOpt(private, methods3, pool, prefixes, withIter))
 				})
 				if d != "" {
 					t0fail = fmt.Sprintf("after op %d the transaction does not read its own writes: %s", i, d)
